@@ -92,6 +92,13 @@ Theorem C06_split_ok_iff : forall p, snd (split_path_version p) = true <-> versi
 Proof. exact split_ok_iff. Qed.
 Print Assumptions C06_split_ok_iff.
 
+(* a valid module path always splits, and its suffix has the documented shape *)
+Theorem C06_check_module_path_split_ok :
+  forall p, check_module_path p = None ->
+    exists pre suf, split_path_version p = (pre, suf, true) /\ pre ++ suf = p /\ suffix_shape p suf.
+Proof. exact check_module_path_split_ok. Qed.
+Print Assumptions C06_check_module_path_split_ok.
+
 (* D1 / known finding K5.  The rules literally as documented (with "nor contain two dots in
    a row") are the implemented ones plus that clause; the code accepts "a..b". *)
 Theorem C06_valid_path_doc_iff :
